@@ -48,6 +48,23 @@ def frame_scan(c):
                 out.append((l9, kind, ('C09',), ok, detail, model))
             else:
                 out.append((l9, kind, ('C09',), None, detail + ' -- synchronised; whether the sharing is observable is not decided', model))
+    # const operations reaching another object through a pointer member (constness is shallow there): the callee must be
+    # const as well, or at least must not write a data member of its object
+    reach = statics.scan_const_reach(c.tu)
+    for r in reach:
+        if r['callee_const']:
+            continue
+        lab = 'const-method-reaches-only-readers:%s->%s' % (r['caller'].replace('dsplib::', ''), r['callee'].replace('dsplib::', ''))
+        what = 'const %s calls the non-const %s through its pointer member %s (%s)' % (r['caller'], r['callee'], r['via'], r['where'])
+        sync = bool(SYNC.search(open(os.path.join(astdb.REPO, c.tu)).read()))
+        if r['writes'] and not sync:
+            out.append((lab, 'frame', ('C09',), False, what + '; it writes its data member(s) %s: two threads using the same object '
+                        'through its const interface write the same memory' % ', '.join(sorted({'%s (line %s)' % w for w in r['writes']})),
+                        {'caller': r['caller'], 'callee': r['callee'], 'written': ', '.join(sorted({w[0] for w in r['writes']})), 'where': r['where']}))
+        else:
+            out.append((lab, 'frame', ('C09',), None, what + '; whether it writes state shared between threads is not decided', None))
+    out.append(('const-reach-scan-ran', 'frame', ('C09',), True,
+                '%d calls through pointer members inside const methods examined' % len(reach), None))
     # non-vacuity: the scan saw the translation unit (every TU includes types.h, which declares constants)
     out.append(('scan-saw-declarations', 'frame', ('C09', 'C10', 'C19'), nvars > 0, '%d objects with static storage duration examined' % nvars, None))
     return out
